@@ -33,7 +33,11 @@ PullOK(pulled, dem) ==
 
 \* calls on side L (the only side of an ordinary iterator)
 THas  == /\ Is("Has") /\ Ev.side = "L" /\ HasNext(Ev.r) /\ PullOK(Ev.pulled, demand') /\ Adv /\ UNCHANGED <<other, pulled0, lazyCheck>>
-TNext == /\ Is("Next") /\ Ev.side = "L" /\ Next(Ev.v, Ev.pn) /\ PullOK(Ev.pulled, demand') /\ Adv /\ UNCHANGED <<other, pulled0, lazyCheck>>
+\* (a Next that panics because the iterator is exhausted is a call outside the protocol: what it pulled on the way - Zip asks its
+\*  first operand before it notices that the second one has ended - is not held against the demand bound, it becomes the baseline)
+TNext == /\ Is("Next") /\ Ev.side = "L" /\ Next(Ev.v, Ev.pn) /\ Adv /\ UNCHANGED <<other, lazyCheck>>
+         /\ IF Ev.pn THEN pulled0' = MaxOf(pulled0, Ev.pulled)
+            ELSE PullOK(Ev.pulled, demand') /\ UNCHANGED pulled0
 \* calls on side R: the same two actions on the other cursor
 THasR  == /\ Is("Has") /\ Ev.side = "R" /\ other.on /\ Ev.r = (other.rem # <<>>) /\ Adv /\ UNCHANGED <<ivars, other, pulled0, lazyCheck>>
 TNextR == /\ Is("Next") /\ Ev.side = "R" /\ other.on /\ Adv /\ UNCHANGED <<ivars, pulled0, lazyCheck>>
@@ -41,7 +45,9 @@ TNextR == /\ Is("Next") /\ Ev.side = "R" /\ other.on /\ Adv /\ UNCHANGED <<ivars
              ELSE ~Ev.pn /\ Ev.v = Head(other.rem) /\ other' = [other EXCEPT !.rem = Tail(@), !.taken = @ + 1]
 \* the pull budget of an unbounded source ran out: acceptable only if the demand could not be met from the prefix
 TBudget == /\ Is("Budget") /\ Ev.inf
-           /\ Need(pipe, src, MaxOf(demand, taken + 1) + Buffered(pipe)) = Len(src)
+           /\ \/ Need(pipe, src, MaxOf(demand, taken + 1) + Buffered(pipe)) = Len(src)
+              \* construction itself may need everything: an eager Drop over stages that never deliver on this source
+              \/ Ev.during = "Build" /\ BuildNeed(pipe, src) = Len(src)
            /\ Adv /\ UNCHANGED <<ivars, other, pulled0, lazyCheck>>
 \* whole-value observations: a terminal operation (ToSeq, Count, Fold, ...) returned this sequence
 TWhole == /\ Is("Whole") /\ Adv /\ UNCHANGED <<ivars, other, pulled0, lazyCheck>>
